@@ -462,14 +462,14 @@ def replay(case, rd, others=()):
 
 
 # ---- TLC chunks ------------------------------------------------------------------------------------------------
-ALL_SHAPES = ("scalar", "string", "cat", "dense", "densecat", "nested", "sparse", "sparsecat", "sparsecatk", "sparsenest", "sparsepart", "sparsezero", "nestedcat", "nestedmix", "sparsenestcat")
+ALL_SHAPES = ("scalar", "string", "cat", "dense", "densecat", "nested", "sparse", "sparsecat", "sparsecatk", "sparsenest", "sparsepart", "sparsezero", "nestedcat", "nestedmix", "sparsenestcat", "sparsenull")
 
 
 def chunks(ctx):
     """(name, MaxLen, levels, shapes, flavours, envs, check Idempotent, Mixes)"""
     if ctx.quick:
         return [("len1", 1, ("full", "off", "off"), ALL_SHAPES, ("igl", "logged"), ("diff", "rev"), True, "none"),
-                ("len2", 2, ("tiny", "tiny", "off"), ("scalar", "cat", "densecat", "nested", "sparsecat", "sparsepart", "sparsezero", "nestedcat", "sparsenestcat"), ("iglmix", "logged"), ("same", "rev"), False, "none"),
+                ("len2", 2, ("tiny", "tiny", "off"), ("scalar", "cat", "densecat", "nested", "sparsecat", "sparsepart", "sparsezero", "nestedcat", "sparsenestcat", "sparsenull"), ("iglmix", "logged"), ("same", "rev"), False, "none"),
                 ("mix1", 1, ("tiny", "off", "off"), ALL_SHAPES, ("igl",), ("same",), False, "only")]
     return [("len1", 1, ("full", "off", "off"), ALL_SHAPES, ("sim", "igl", "iglmix", "logged"), ("one", "same", "diff", "samediff", "rev"), True, "none"),
             ("len2", 2, ("lite", "lite", "off"), ALL_SHAPES, ("igl", "iglmix", "logged"), ("same", "diff", "rev"), False, "none"),
@@ -485,7 +485,7 @@ def tlc_chunk(ctx, name, maxlen, levels, shapes, flavours, envs, idem, mixes):
     """the TLC run of one chunk (runs in a thread: the chunks' model checking overlaps with each other and with the replay)"""
     sub = {"MaxLen = 1": "MaxLen = %d" % maxlen, 'Level1 = "full"': 'Level1 = "%s"' % levels[0], 'Level2 = "off"': 'Level2 = "%s"' % levels[1],
            'Level3 = "off"': 'Level3 = "%s"' % levels[2],
-           'Shapes = {"scalar", "string", "cat", "dense", "densecat", "nested", "sparse", "sparsecat", "sparsecatk", "sparsenest", "sparsepart", "sparsezero", "nestedcat", "nestedmix", "sparsenestcat"}': "Shapes = " + tla_set(shapes),
+           'Shapes = {"scalar", "string", "cat", "dense", "densecat", "nested", "sparse", "sparsecat", "sparsecatk", "sparsenest", "sparsepart", "sparsezero", "nestedcat", "nestedmix", "sparsenestcat", "sparsenull"}': "Shapes = " + tla_set(shapes),
            'Flavours = {"sim", "igl", "iglmix", "logged"}': "Flavours = " + tla_set(flavours),
            'Envs = {"one", "same", "diff"}': "Envs = " + tla_set(envs), 'Mixes = "none"': 'Mixes = "%s"' % mixes}
     if not idem: sub["INVARIANT Idempotent"] = ""
